@@ -274,6 +274,8 @@ def run(P, R, L):
              "later records unreadable or invent records (reassembly typestate); a torn tail is end-of-log (GRD-6)")
     K.ts1(P, R, L)
     K.grd6(P, R, L)
+    R.clause("GRD-12", "a WAL / manifest is re-opened for appending only if the reader consumed it completely (no append after a torn tail)")
+    K.grd12_reuse_only_complete_logs(P, R, L)
     R.not_decided += ["partial-write behaviour of the filesystem", "what recovery computes from a given on-disk image",
                       "batch atomicity at byte level (the reassembly clause is C12/TS-1)"]
     R.assumptions += ["FileSystem::rename is atomic; create_file(append=false) truncates",
